@@ -40,6 +40,11 @@ func genC20(t *rapid.T) C20Case {
 		Try:     rapid.Bool().Draw(t, "try"),
 		IntKind: rapid.IntRange(0, 5).Draw(t, "intkind"),
 	}
+	// "every level from 0 up": one case in 25 asks for a high level (the generator recurses level
+	// by level, an operand's level is drawn below its parent's)
+	if rapid.IntRange(0, 24).Draw(t, "highlevel") == 0 {
+		c.Level = rapid.SampledFrom([]int{13, 16, 20, 31, 32, 33, 40, 54, 63, 64, 65, 66, 70, 80, 100, 127, 128, 129}).Draw(t, "level_high")
+	}
 	nn := rapid.IntRange(0, 4).Draw(t, "nnums")
 	c.Nums = map[string]int64{}
 	for i := 0; i < nn; i++ {
@@ -221,6 +226,9 @@ func checkC20(c C20Case, r *Rec) *Violation {
 	// the engine: compile with exactly the variables given, every configuration
 	bare := !strings.Contains(gen.Expr, "(")
 	for mask := 0; mask < 16; mask++ {
+		if c.Level > 12 && mask%4 != int(uint64(c.Seed)%4) {
+			continue // high levels: programs of tens of thousands of nodes, 4 of the 16 subsets (rotating with the seed)
+		}
 		cc := eval.NewConfig()
 		for i, op := range allOpts {
 			cc.CompileOptions[op] = mask&(1<<i) != 0
@@ -238,6 +246,15 @@ func checkC20(c C20Case, r *Rec) *Violation {
 			eval.EnableInfixNotation(cc) // a bare atom is a program in infix notation only
 		}
 		e, co := SafeCompile(cc, gen.Expr)
+		if co.Panic == nil && co.Err != nil && countNodes(tree) > 32767 {
+			// the expression as generated has more nodes than a compiled program can have (C09's limit):
+			// a genuine breach of "returns an expression that compiles", recorded as an open finding under
+			// exactly this signature; the reported result was checked against the reference above
+			if r.KnownHit("C20", "C20-high-level-exceeds-node-limit") {
+				r.Class("known:high-level-exceeds-node-limit")
+				continue
+			}
+		}
 		if co.Panic != nil || co.Err != nil {
 			return Violf("C20: the generated expression does not compile with the variables it was given (config %s): %v\n%s", maskName(mask), co, where())
 		}
@@ -299,7 +316,7 @@ func checkC20(c C20Case, r *Rec) *Violation {
 
 var propC20 = Prop[C20Case]{
 	ID:    "C20",
-	Rule:  "seed (any int64) x level 0..9 (12 thorough) x result type x every subset of {EnableVariable, EnableCondition, EnableTryEval} x drawn variable maps (0-4 ints incl. 0 and negatives, 0-3 bools, 0-3 DNE variables); the returned text is read by the harness's own S-expression reader and evaluated by R (no DNE variable used) or K (with them): reported Res must equal it and the reference must not fail; then Compile with exactly the given variables and Eval/TryEval under all 16 optimization subsets must return Res. Non-trivial = level >= 1 and the expression contains a variable or an if; distinct by expression text + variables",
+	Rule:  "seed (any int64) x level 0..9 (12 thorough; one case in 25 a level from 13 to 129, compiled under 4 of the 16 subsets) x result type x every subset of {EnableVariable, EnableCondition, EnableTryEval} x drawn variable maps (0-4 ints incl. 0 and negatives, 0-3 bools, 0-3 DNE variables); the returned text is read by the harness's own S-expression reader and evaluated by R (no DNE variable used) or K (with them): reported Res must equal it and the reference must not fail; then Compile with exactly the given variables and Eval/TryEval under all 16 optimization subsets must return Res. Non-trivial = level >= 1 and the expression contains a variable or an if; distinct by expression text + variables",
 	Gen:   genC20,
 	Check: checkC20,
 }
